@@ -60,8 +60,11 @@ func parseTags(c *Sexp, obs parseObs) []string {
 			tags = append(tags, "leftrec:reentered")
 		}
 	}
-	files, _ := caseFiles(c)
-	tags = append(tags, fmt.Sprintf("inputlen:%d", bucket(len(files[0].raw))))
+	files, tgt := caseFiles(c)
+	tags = append(tags, fmt.Sprintf("inputlen:%d", bucket(len(files[tgt].raw))))
+	if tgt > 0 {
+		tags = append(tags, "placement:not-first")
+	}
 	return tags
 }
 
@@ -284,12 +287,13 @@ func genParseCase(o genOpts, maxLen int) func(rng *rand.Rand, tier string, i int
 func shrinkParse(c *Sexp) []*Sexp {
 	var out []*Sexp
 	files := findArg(c, "files")
-	in := files[0].List[1].Bytes()
+	_, tgt := caseFiles(c)
+	in := files[tgt].List[1].Bytes() // the PARSED file (it need not be the first of the set)
 	setInput := func(b []byte) *Sexp {
 		d := c.Clone()
 		for _, x := range d.List {
 			if x.Head() == "files" {
-				x.List[1].List[1] = H(b)
+				x.List[1+tgt].List[1] = H(b)
 			}
 		}
 		return d
